@@ -177,8 +177,19 @@ MISC_MAP = {"echo": "echo", "progress_bar": "progress_bar", "command": "command"
             "time_format": "time_format", "timestamp_format": "timestamp_format"}
 
 
+NUM_FLOAT = ("analysis_window", "min_duration", "max_duration", "max_silence", "energy_threshold")
+NUM_INT = ("sampling_rate", "sample_width", "channels")
+
+
 def sym_namespace(eng):
     d = {a: Opq(tag=a) for a in NS_ATTRS}
+    # numeric options have numeric values (argparse converts them): arithmetic on them is arithmetic, and a value handed
+    # on must be the very value given
+    for a in NUM_FLOAT:
+        d[a] = Fl(Real(fresh_name("opt." + a)))
+    for a in NUM_INT:
+        d[a] = Int(fresh_name("opt." + a))
+        eng.assume(d[a] >= 1)
     return NS(d), d
 
 
